@@ -518,6 +518,9 @@ PROPS = {
                                         "--reopen-bias", "1"], quick=8, thorough=200),
               dict(driver="hist", args=["--nops", "40", "--per-file", "6", "--profile", "straddle",
                                         "--compact-bias", "1"], quick=6, thorough=150),
+              # memtable limit 1: every write is rotated into a memtable, a log and a table of its own
+              dict(driver="hist", args=["--nops", "25", "--per-file", "2", "--memtable", "1",
+                                        "--reopen-bias", "1"], quick=4, thorough=60),
               # keys of 17 KB (longer than any block, than a log block, than small memtables)
               dict(driver="hist", args=["--nops", "30", "--per-file", "4", "--giant-keys",
                                         "--reopen-bias", "1"], quick=4, thorough=100)]),
@@ -731,6 +734,10 @@ PROPS = {
               dict(driver="hist", args=["--nops", "60", "--per-file", "6", "--giant-values",
                                         "--max-iters", "2"],
                    quick=12, thorough=300),
+              # the smallest memtable limit there is (below the footprint of an empty memtable:
+              # every write gets a memtable, a log and a table of its own)
+              dict(driver="hist", args=["--nops", "25", "--per-file", "2", "--memtable", "1",
+                                        "--deadline", "60"], quick=4, thorough=60),
               # an I/O error is progress of the filesystem too: the worker must survive every
               # failed call (no assertion tripped on an error path) and every caller must return
               dict(driver="fault", args=["--nops", "24", "--positions", "60", "--small-caches"],
